@@ -6,6 +6,7 @@ recursive spec functions as z3 RecFunctions.  Everything that is not understood
 raises ``Unsupported`` -> the function's obligations are UNDECIDED, never held.
 """
 import ast
+import os
 import itertools
 
 import z3
@@ -208,6 +209,7 @@ class Engine:
         self.repo = repo
         self.sidecar = sidecar
         self.lemmas_used = set()
+        self.assumed_contracts = set()   # callee contracts used but not proved here (bounded / axiom)
         self.le_len = {}          # id of an integer term -> ids of sequence-length terms it is known not to exceed
         self.nonneg = set()       # ids of integer terms known to be >= 0 (bound indices, loop counters)
         self._nonneg_keep = []    # (keeps the terms alive so that ids are not reused)
@@ -635,7 +637,20 @@ class Exec:
         req = [as_bool(sub.ev(r)) for r in lem.requires]
         ens = [as_bool(sub.ev(e)) for _, e in lem.ensures]
         self.eng.lemmas_used.add(lem.name)
-        return vl.simp(z3.Implies(z3.And(*req) if req else z3.BoolVal(True), z3.And(*ens)))
+        pre = vl.simp(z3.And(*req)) if req else z3.BoolVal(True)
+        post = z3.And(*ens)
+        if not z3.is_true(pre):
+            # a precondition that the literals of this path already decide is discharged here, so that
+            # the lemma is available as a plain fact
+            from . import solve
+            try:
+                pc2, pre2 = solve.unit_rewrite(list(self.pc), pre)
+                pc3, post2 = solve.unit_rewrite(list(self.pc), post)
+                if z3.is_true(pre2):
+                    return vl.simp(post2)
+            except z3.Z3Exception:
+                pass
+        return vl.simp(z3.Implies(pre, post))
 
     def safe(self, cond, exc, what, node=None):
         """The operation raises *exc* unless *cond*.  If the contract allows the
@@ -1110,8 +1125,14 @@ class Exec:
         for c in self.pc:
             for d in (c.children() if z3.is_and(c) else [c]):
                 learn(d)
+        conjs = list(conjs)
+        for c in conjs:           # constructor tests among the conjuncts themselves count for their siblings
+            learn(c)
         out = []
         for c in conjs:
+            if z3.is_app(c) and c.decl().kind() == z3.Z3_OP_DT_IS:
+                out.append(c)
+                continue
             c2 = vl.simp(z3.substitute(c, *subs)) if subs else c
             for d in (c2.children() if z3.is_and(c2) else [c2]):
                 out.append(d)
@@ -1261,7 +1282,13 @@ class Exec:
             return z3.If(is_none(x), default, r)
         lo = bound(sl.lower, z3.IntVal(0))
         hi = bound(sl.upper, n)
-        ln = vl.simp(z3.If(hi > lo, hi - lo, 0))
+        if sl.lower is None and self.is_nonneg(vl.simp(hi)):
+            ln = vl.simp(hi)                 # xs[:k] with k >= 0: k elements, no case distinction
+        else:
+            ln = vl.simp(z3.If(hi > lo, hi - lo, 0))
+            if os.environ.get('PYVC_DEBUG_LEN') and sl.lower is None:
+                import sys
+                print('slice ln ite: hi=', vl.simp(hi).sexpr()[:200], 'n=', vl.simp(n).sexpr()[:100], 'spec', self.spec_mode, file=sys.stderr)
         if kind == 'str':
             return V(VStr(z3.SubString(seq, lo, ln)))
         sub = z3.SubSeq(seq, lo, ln)
@@ -1663,7 +1690,7 @@ BUILTIN_NAMES = {'len', 'isinstance', 'str', 'list', 'set', 'dict', 'tuple', 're
                  'zip', 'range', 'sorted', 'next', 'iter', 'bool', 'int', 'map', 'getattr', 'hasattr',
                  'cast', 'print', 'min', 'max', 'any', 'all', 'sum', 'repr', 'float', 'type',
                  # specification vocabulary
-                 'implies', 'has', 'old', 'at_iteration_start', 'forall_idx', 'exists_idx', 'is_str', 'is_int', 'is_none',
+                 'implies', 'has', 'old', 'at_iteration_start', 'init', 'last', 'forall_idx', 'exists_idx', 'is_str', 'is_int', 'is_none',
                  'is_tuple', 'is_list', 'is_float', 'is_bool', 'is_obj', 'is_inst', 'in_re',
                  'set_of_seq', 'set_add', 'set_union', 'set_where', 'subset', 'dict_has', 'dict_get', 'dict_keys', 'dict_values_str',
                  'mk', 'noop', 'norm_has', 'norm_get', 'reif_has', 'reif_get', 'dereif_has', 'dereif_get',
